@@ -287,6 +287,24 @@ structure Created where
   parent : Addr
   chain : DNode
 
+/-- `lyd_new_path_` after `ly_path_compile`: `lyd_new_path_check_find_lypath`, the search for existing nodes, the position
+    check and the creation loop, on the compiled segments `cs0` -/
+def newPathC (f : Forest) (cs0 : List CStep) (v : Bytes) : Except Err Created :=
+  match checkFind v 0 cs0 with
+  | .error e => .error e
+  | .ok (cs, cut) =>
+    let search := match cut with | some k => cs.take k | Option.none => cs
+    let (a, k) := evalSteps f search
+    if cut.isNone && k == cs.length && k > 0 then .error .exists
+    else
+      let todo := cs.drop k
+      let sibs := childrenAt f a
+      if posBad sibs todo then .error .einval
+      else
+        match createChain v todo with
+        | Option.none => .error .unsupported
+        | some n => .ok ⟨a, n⟩
+
 /-- `lyd_new_path_(parent ∈ f or NULL, ctx, NULL, path, value, …, options = 0 | LYD_NEW_VAL_OUTPUT)` for an absolute path
     (trees without default nodes) -/
 def newPath (schema : List SNode) (f : Forest) (path : Bytes) (v : Bytes) : Except Err Created :=
@@ -294,20 +312,6 @@ def newPath (schema : List SNode) (f : Forest) (path : Bytes) (v : Bytes) : Exce
   if f.isEmpty && path.head? != some 47 then .error .einval else
   match compilePath schema false path with
   | .error e => .error e
-  | .ok cs0 =>
-    match checkFind v 0 cs0 with
-    | .error e => .error e
-    | .ok (cs, cut) =>
-      let search := match cut with | some k => cs.take k | Option.none => cs
-      let (a, k) := evalSteps f search
-      if cut.isNone && k == cs.length && k > 0 then .error .exists
-      else
-        let todo := cs.drop k
-        let sibs := childrenAt f a
-        if posBad sibs todo then .error .einval
-        else
-          match createChain v todo with
-          | Option.none => .error .unsupported
-          | some n => .ok ⟨a, n⟩
+  | .ok cs0 => newPathC f cs0 v
 
 end LyModel.Path
